@@ -39,3 +39,7 @@ for name, rate, rule in (('log in a rate', 'k*log(A+1)', None), ('unary minus be
 d = libsbml.readSBML('/tmp/_formula_language_demo.xml')
 print('FAIL' if bad else 'PASS')
 sys.exit(1 if bad else 0)
+
+# --- added later: parameter ids (fix ce6650e) -------------------------------------------------------------------------------------
+# Before: Model(parameters={'_q': 2.}, reactions=[(['A'],['B'],'massaction',{'k':'_q'})]).write_sbml_model(f) wrote parameter id 'q' and the law
+# '_q * A'; import_sbml(f) failed with "Unspecified Parameters: _q".  After: id '_q', law '_q * A', round trip exact.
